@@ -1181,3 +1181,272 @@ func (nm *NodeMachine) CheckFreshReplay() error {
 	}
 	return nil
 }
+
+// ---- C05 / C06: faults, images, snapshots of the model ----
+
+// CheckImage (C05 oracle b): a second node opened on the disk image of everything written so far
+// answers every ledger and state query like the live node, holds the same pool, and SelectUtxos on
+// the live node only returns outputs that exist, unfrozen and once.
+func (nm *NodeMachine) CheckImage() error {
+	n := nm.N
+	img, err := n.OpenImage(n.World.LogLen())
+	if err != nil {
+		return fmt.Errorf("a node cannot be opened on the current disk image: %v", err)
+	}
+	defer img.Destroy()
+	if d := DiffObs(ObserveLedger(img.Ledger, nm.LM.M), ObserveLedger(n.Ledger, nm.LM.M)); d != "" {
+		return fmt.Errorf("running ledger differs from a ledger reopened on the same data (reopened -> running): %s", d)
+	}
+	if d := DiffObs(ObserveState(img, nm.AddrUniv, nm.rawKeys()), ObserveState(n, nm.AddrUniv, nm.rawKeys())); d != "" {
+		return fmt.Errorf("running state machine differs from one reopened on the same data (reopened -> running): %s", d)
+	}
+	ip, err := img.State.GetUnconfirmedTx(false)
+	if err != nil {
+		return fmt.Errorf("reopened node: GetUnconfirmedTx: %v", err)
+	}
+	lp, err := n.State.GetUnconfirmedTx(false)
+	if err != nil {
+		return fmt.Errorf("GetUnconfirmedTx: %v", err)
+	}
+	if a, b := txSet(ip), txSet(lp); a != b {
+		return fmt.Errorf("pool of the running node %s differs from the reopened one %s", b, a)
+	}
+	// SelectUtxos validity (the order is the code's choice)
+	s := nm.PoolState()
+	h := nm.ledgerHeight()
+	for i := 0; i < 7; i++ {
+		addr := Ring[i].Address
+		avail := big.NewInt(0)
+		for _, u := range s.UtxosOf(addr) {
+			if u.Frozen <= h && u.Frozen != -1 {
+				avail.Add(avail, u.Amount)
+			}
+		}
+		if avail.Sign() == 0 {
+			continue
+		}
+		ins, _, total, err := n.State.SelectUtxos(addr, avail, false, false)
+		if err != nil {
+			return fmt.Errorf("SelectUtxos(%s, %s) fails although the unfrozen outputs sum to that amount: %v", shortAddr(addr), avail, err)
+		}
+		seen := map[string]bool{}
+		sum := big.NewInt(0)
+		for _, in := range ins {
+			k := UKey(string(in.FromAddr), in.RefTxid, in.RefOffset)
+			u := s.U[k]
+			if u == nil || seen[k] || u.Frozen > h || u.Frozen == -1 || !bytes.Equal(u.Amount.Bytes(), in.Amount) {
+				return fmt.Errorf("SelectUtxos(%s) returns %s which is spent, frozen, repeated or of another amount", shortAddr(addr), k)
+			}
+			seen[k] = true
+			sum.Add(sum, u.Amount)
+		}
+		if sum.Cmp(total) != 0 || total.Cmp(avail) < 0 {
+			return fmt.Errorf("SelectUtxos(%s): total %s, sum of returned %s, needed %s", shortAddr(addr), total, sum, avail)
+		}
+	}
+	return nil
+}
+
+func txSet(txs []*pb.Transaction) string {
+	var ss []string
+	for _, t := range txs {
+		ss = append(ss, Hex8(t.Txid))
+	}
+	sort.Strings(ss)
+	return "[" + strings.Join(ss, " ") + "]"
+}
+
+// ApplyWithFault arms "the nth storage write from now fails", executes op, and - if the fault fired -
+// reconciles the model with what the node persisted (the faulted operation's own result is
+// undefined; everything observable afterwards must still be consistent: CheckState / CheckImage).
+func (nm *NodeMachine) ApplyWithFault(op NOp, nth int) (fired bool, err error) {
+	nm.N.World.FailNthWrite(nth)
+	err = nm.Apply(op)
+	WaitAsync()
+	fired = !nm.N.World.Disarm()
+	if !fired {
+		return false, err
+	}
+	nm.Stat["fault-fired"]++
+	nm.Stat["fault-in-"+op.Op]++
+	return true, nm.reconcile()
+}
+
+// reconcile rebuilds the model's volatile part (stored flags, tip, pointer, pool) from the node.
+func (nm *NodeMachine) reconcile() error {
+	m := nm.LM.M
+	leg := nm.N.Ledger
+	for _, b := range m.Blocks {
+		b.Stored = leg.ExistBlock(b.ID)
+	}
+	tip, ok := m.ByID[string(leg.GetMeta().TipBlockid)]
+	if !ok || !m.Blocks[tip].Stored {
+		return fmt.Errorf("after an injected write error the ledger tip %x is not a stored block the model knows", leg.GetMeta().TipBlockid)
+	}
+	m.Tip = tip
+	ptr, ok := m.ByID[string(nm.N.State.GetLatestBlockid())]
+	if !ok || !m.Blocks[ptr].Stored || nm.States[ptr] == nil {
+		return fmt.Errorf("after an injected write error the state pointer %x is not a stored valid block", nm.N.State.GetLatestBlockid())
+	}
+	nm.Ptr = ptr
+	nm.Irrev = nm.N.State.GetMeta().IrreversibleBlockHeight
+	return nm.adoptPool(nm.Pool, nil, "an injected write error")
+}
+
+// Snap is the model's volatile part at one moment (C06).
+type Snap struct {
+	LogLen int
+	Stored []bool
+	Tip    int
+	Ptr    int
+	Pool   []*pb.Transaction
+	Irrev  int64
+	Op     string
+}
+
+// TakeSnap records the current model next to the current write-log length.
+func (nm *NodeMachine) TakeSnap(op string) Snap {
+	s := Snap{LogLen: nm.N.World.LogLen(), Tip: nm.LM.M.Tip, Ptr: nm.Ptr, Irrev: nm.Irrev, Op: op}
+	for _, b := range nm.LM.M.Blocks {
+		s.Stored = append(s.Stored, b.Stored)
+	}
+	s.Pool = append(s.Pool, nm.Pool...)
+	return s
+}
+
+// modelAt returns a copy of the ledger model with the stored flags / tip of a snapshot.
+func (nm *NodeMachine) modelAt(s Snap) *LedgerModel {
+	src := nm.LM.M
+	m := &LedgerModel{ByID: src.ByID, TxIDs: src.TxIDs, TxOrd: src.TxOrd, Tip: s.Tip}
+	for i, b := range src.Blocks {
+		c := *b
+		c.Stored = i < len(s.Stored) && s.Stored[i]
+		m.Blocks = append(m.Blocks, &c)
+	}
+	return m
+}
+
+// CheckCrashImage (C06): open ledger + state on the image made of the first k storage writes and
+// check it against the snapshots before / after the operation that was in flight.
+func (nm *NodeMachine) CheckCrashImage(k int, before, after Snap) error {
+	img, err := nm.N.OpenImage(k)
+	if err != nil {
+		return fmt.Errorf("ledger / state cannot be opened: %v", err)
+	}
+	defer img.Destroy()
+	src := nm.LM.M
+	// ledger: one batch per operation, so it equals the model before or after the in-flight operation
+	var lm *LedgerModel
+	eb := CheckLedgerAgainstModel(img.Ledger, nm.modelAt(before), nm.FS)
+	if eb == nil {
+		lm = nm.modelAt(before)
+	} else {
+		ea := CheckLedgerAgainstModel(img.Ledger, nm.modelAt(after), nm.FS)
+		if ea != nil {
+			return fmt.Errorf("ledger matches neither the model before the in-flight operation (%v) nor after it (%v)", eb, ea)
+		}
+		lm = nm.modelAt(after)
+	}
+	// state: pointer names a stored valid block; content = model at that block + persisted pool
+	ptr, ok := src.ByID[string(img.State.GetLatestBlockid())]
+	if !ok || !lm.Blocks[ptr].Stored {
+		return fmt.Errorf("state pointer %x names a block the reopened ledger does not have", img.State.GetLatestBlockid())
+	}
+	if nm.States[ptr] == nil {
+		return fmt.Errorf("state pointer names block %s which is not valid on its parent's state", src.Blocks[ptr].Label)
+	}
+	pool, err := img.State.GetUnconfirmedTx(false)
+	if err != nil {
+		return fmt.Errorf("GetUnconfirmedTx: %v", err)
+	}
+	known := map[string]*pb.Transaction{}
+	for _, t := range before.Pool {
+		known[string(t.Txid)] = t
+	}
+	for _, t := range after.Pool {
+		known[string(t.Txid)] = t
+	}
+	var mine []*pb.Transaction
+	for _, t := range pool {
+		o, ok := known[string(t.Txid)]
+		if !ok {
+			return fmt.Errorf("persisted pool holds transaction %s that was pending neither before nor after the in-flight operation", Hex8(t.Txid))
+		}
+		mine = append(mine, o)
+	}
+	h := lm.Blocks[lm.Tip].Height
+	order, ok := validOrder(nm.States[ptr], mine, h)
+	if !ok {
+		return fmt.Errorf("persisted pool %s does not apply on the state at %s: effects of some pending transaction are missing", txList(mine), src.Blocks[ptr].Label)
+	}
+	s := nm.States[ptr].Clone()
+	for _, t := range order {
+		s.Apply(t, "")
+	}
+	want := ExpectedObs(s, src.Blocks[ptr].ID, nm.AddrUniv, nm.rawKeys(), h)
+	got := ObserveState(img, nm.AddrUniv, nm.rawKeys())
+	delete(got, "meta")
+	if d := DiffObs(want, got); d != "" {
+		return fmt.Errorf("state at %s with %d pending differs from the model (model -> reopened): %s", src.Blocks[ptr].Label, len(order), d)
+	}
+	sum := s.SumU()
+	for _, t := range order {
+		for _, o := range t.TxOutputs {
+			if string(o.ToAddr) == FeeAddr {
+				sum.Add(sum, new(big.Int).SetBytes(o.Amount))
+			}
+		}
+	}
+	if sum.Cmp(img.State.GetTotal()) != 0 {
+		return fmt.Errorf("conservation broken after restart: sum(U)+pending fees=%s, GetTotal=%s", sum, img.State.GetTotal())
+	}
+	// synchronising the state to the ledger tip reaches the state of an uninterrupted run
+	tip := lm.Tip
+	expectOK := true
+	lca := src.LCA(ptr, tip)
+	irrev := img.State.GetMeta().IrreversibleBlockHeight
+	for j := ptr; j != lca; j = src.Blocks[j].Parent {
+		if src.Blocks[j].Height <= irrev {
+			expectOK = false
+		}
+	}
+	for j := tip; j != lca; j = src.Blocks[j].Parent {
+		if !nm.Valid[j] {
+			expectOK = false
+		}
+	}
+	werr := img.State.Walk(src.Blocks[tip].ID, false)
+	WaitAsync()
+	if (werr == nil) != expectOK {
+		return fmt.Errorf("after restart Walk(%s -> ledger tip %s) returned %v, an uninterrupted run expects success=%v", src.Blocks[ptr].Label, src.Blocks[tip].Label, werr, expectOK)
+	}
+	if werr == nil {
+		pool2, err := img.State.GetUnconfirmedTx(false)
+		if err != nil {
+			return err
+		}
+		var mine2 []*pb.Transaction
+		for _, t := range pool2 {
+			o, ok := known[string(t.Txid)]
+			if !ok {
+				return fmt.Errorf("after the restart walk the pool holds an unknown transaction %s", Hex8(t.Txid))
+			}
+			mine2 = append(mine2, o)
+		}
+		order2, ok := validOrder(nm.States[tip], mine2, h)
+		if !ok {
+			return fmt.Errorf("after the restart walk the pool %s does not apply on the state at the tip", txList(mine2))
+		}
+		s2 := nm.States[tip].Clone()
+		for _, t := range order2 {
+			s2.Apply(t, "")
+		}
+		want := ExpectedObs(s2, src.Blocks[tip].ID, nm.AddrUniv, nm.rawKeys(), h)
+		got := ObserveState(img, nm.AddrUniv, nm.rawKeys())
+		delete(got, "meta")
+		if d := DiffObs(want, got); d != "" {
+			return fmt.Errorf("after restart + walk to the tip %s the state differs from the model (model -> node): %s", src.Blocks[tip].Label, d)
+		}
+	}
+	return nil
+}
